@@ -582,6 +582,39 @@ func c01Scenario(c *mon.Ctx, r *rand.Rand, lg *world.Log, key, evil *world.Key, 
 		runFaulted("cache-planted-full-tile-corrupt@"+pathKind(p), func(w *world.World) { w.Cache[fp] = bad }, true)
 		break
 	}
+	// ---- the server no longer has a partial tile (404) and answers with the completed full tile ----
+	// (prefix = the true hashes of tree n, suffix = whatever the server likes: only the prefix is, and
+	// can be, authenticated against the head of size n)
+	for _, p := range remotes {
+		t, ok := refmerkle.ParseTilePath(strings.TrimPrefix(p, "/"))
+		if !ok || t.W == 1<<uint(t.H) {
+			continue
+		}
+		p := p
+		full := refmerkle.Tile{H: t.H, L: t.L, N: t.N, W: 1 << uint(t.H)}
+		fullPath := "/" + refmerkle.TilePath(full)
+		hb := honestBytes(p)
+		for variant := 0; variant < 3; variant++ {
+			completed := make([]byte, 32*full.W)
+			copy(completed, hb)
+			for i := len(hb); i < len(completed); i++ {
+				completed[i] = byte(r.IntN(256))
+			}
+			label := "partial-404+full-tile-true-prefix"
+			switch variant {
+			case 1:
+				completed[r.IntN(len(hb))] ^= 8
+				label = "partial-404+full-tile-corrupt-prefix"
+			case 2:
+				completed = completed[:len(completed)-1-r.IntN(31)]
+				label = "partial-404+full-tile-ragged-length"
+			}
+			runFaulted(label+"@"+pathKind(p), func(w *world.World) {
+				w.Faults[p] = func([]byte, error) ([]byte, error) { return nil, fmt.Errorf("404") }
+				w.Faults[fullPath] = func([]byte, error) ([]byte, error) { return completed, nil }
+			}, false)
+		}
+	}
 	// ---- two and three simultaneous faults ------------------------------------------------------
 	if len(remotes) >= 2 {
 		for k := 0; k < 4; k++ {
